@@ -952,3 +952,946 @@ Proof.
   intros a [|e0 rest] f H; [contradiction|].
   destruct H as [H|H]; [apply gap_shape|apply hole_shape]; exact H.
 Qed.
+
+(* ================================================================================ *)
+(* 6. deliveries that respect transaction boundaries                                 *)
+(* ================================================================================ *)
+
+(* the reported cursor is below everything that is not applied yet *)
+Definition cover (a : applier) (B : list wentry) : Prop := forall x, In x B -> a_max a < w_seq x.
+
+(* M | R is a cut between two sequence numbers (or at an end of the log) *)
+Definition bnd (M R : list wentry) : Prop :=
+  forall M' x y R', M = M' ++ [x] -> R = y :: R' -> w_seq x <> w_seq y.
+
+Lemma bnd_above : forall start M R, log_ok start (M ++ R) = true -> bnd M R -> M <> [] ->
+  forall x, In x R -> gs start M < w_seq x.
+Proof.
+  intros start M R HL Hb Hne x Hx.
+  destruct R as [|y R']; [destruct Hx|].
+  destruct (exists_last Hne) as (M' & m & EM).
+  assert (Hy : w_seq y = gs start M + 1).
+  { destruct (gs_next _ _ _ _ HL) as [E|[_ E]]; [|exact E].
+    exfalso. apply (Hb M' m y R' EM eq_refl). rewrite E, EM, gs_snoc. reflexivity. }
+  destruct Hx as [<-|Hx]; [lia|].
+  replace (M ++ y :: R') with ((M ++ [y]) ++ R') in HL by (rewrite <- app_assoc; reflexivity).
+  pose proof (gs_lower _ _ _ HL x Hx) as Hl. rewrite gs_snoc in Hl. lia.
+Qed.
+
+Lemma tail_full : forall start a A Dnew Q' f ls,
+  start + 2 < U64 -> log_ok start (A ++ Dnew ++ Q') = true -> Inv start a A ->
+  (Dnew <> [] -> ls = gs start (A ++ Dnew)) -> (Dnew = [] -> ls <= gs start A) ->
+  cover a (Dnew ++ Q') -> (forall x, In x Q' -> ls < w_seq x) ->
+  let d := finish (apply_loop a (tp Dnew) f []) ls in
+  exists k,
+    d_applied d = firstn k Dnew /\ Inv start (d_state d) (A ++ firstn k Dnew) /\
+    cover (d_state d) (skipn k Dnew ++ Q') /\
+    a_max a <= a_max (d_state d) /\ d_ret d = a_max (d_state d).
+Proof.
+  intros start a A Dnew Q' f ls Hst HL HI H1 H2 Hc Hend d.
+  destruct (tail_spec start a A Dnew Q' f ls Hst HL HI H1 H2) as (k & E1 & E2 & E3 & E4 & E5).
+  fold d in E1, E2, E3, E4, E5.
+  exists k. split; [exact E1|]. split; [exact E2|]. split; [|split; [exact E3|exact E4]].
+  destruct E5 as [(_ & Ek & Em)|(_ & _ & q & Eq & Em)].
+  - rewrite Ek, skipn_all. cbn [app]. intros x Hx. rewrite Em.
+    assert (a_max a < w_seq x) by (apply Hc; apply in_or_app; right; exact Hx).
+    specialize (Hend x Hx). lia.
+  - intros x Hx. rewrite Em.
+    assert (Hin : In x (Dnew ++ Q')).
+    { apply in_app_or in Hx. apply in_or_app. destruct Hx as [Hx|Hx]; [left|right; exact Hx].
+      rewrite <- (firstn_skipn k Dnew). apply in_or_app. right. exact Hx. }
+    specialize (Hc x Hin).
+    pose proof (nth_error_split3 _ _ _ _ Eq) as Esp.
+    assert (Esk : skipn k Dnew = q :: skipn (S k) Dnew).
+    { rewrite Esp at 1. rewrite skipn_app_exact; [reflexivity|].
+      assert (k < length Dnew)%nat by (apply nth_error_Some; rewrite Eq; discriminate).
+      rewrite firstn_length. lia. }
+    rewrite Esk in Hx. cbn [app] in Hx.
+    destruct Hx as [<-|Hx].
+    + assert (0 < w_seq q).
+      { apply log_ok_inv in HL. destruct HL as (_ & _ & Hs). specialize (Hs q).
+        assert (start < w_seq q); [|lia]. apply Hs. apply in_or_app. right. exact Hin. }
+      lia.
+    + rewrite Esp in HL.
+      replace (A ++ (firstn k Dnew ++ q :: skipn (S k) Dnew) ++ Q')
+        with ((A ++ firstn k Dnew ++ [q]) ++ (skipn (S k) Dnew ++ Q')) in HL.
+      2:{ rewrite <- !app_assoc. cbn [app]. reflexivity. }
+      pose proof (gs_lower _ _ _ HL x Hx) as Hl.
+      rewrite app_assoc, gs_snoc in Hl. lia.
+Qed.
+
+(* the result of an aligned delivery: Dn applied behind A, the cursor still below the rest *)
+Definition extends_cov (start : N) (L : list wentry) (a : applier) (A : list wentry)
+  (d : delivered) (Dn B' : list wentry) : Prop :=
+  L = (A ++ Dn) ++ B' /\ d_applied d = Dn /\ Inv start (d_state d) (A ++ Dn) /\
+  cover (d_state d) B' /\ a_max a <= a_max (d_state d) /\ d_ret d = a_max (d_state d).
+
+Lemma extends_cov_nothing : forall start L a A B rc, L = A ++ B -> Inv start a A -> cover a B ->
+  extends_cov start L a A (mkD a [] (a_max a) rc) [] B.
+Proof.
+  intros start L a A B rc EL HI Hc. unfold extends_cov. cbn [d_applied d_state d_ret].
+  rewrite app_nil_r. split; [exact EL|]. split; [reflexivity|]. split; [exact HI|].
+  split; [exact Hc|]. split; [lia|reflexivity].
+Qed.
+
+Lemma extends_cov_tail : forall start L a A Dnew Q' f ls,
+  start + 2 < U64 -> log_ok start L = true -> L = A ++ Dnew ++ Q' -> Inv start a A ->
+  (Dnew <> [] -> ls = gs start (A ++ Dnew)) -> (Dnew = [] -> ls <= gs start A) ->
+  cover a (Dnew ++ Q') -> (forall x, In x Q' -> ls < w_seq x) ->
+  exists Dn B', extends_cov start L a A (finish (apply_loop a (tp Dnew) f []) ls) Dn B'.
+Proof.
+  intros start L a A Dnew Q' f ls Hst HL EL HI H1 H2 Hc Hend.
+  rewrite EL in HL.
+  destruct (tail_full start a A Dnew Q' f ls Hst HL HI H1 H2 Hc Hend) as (k & E1 & E2 & E3 & E4 & E5).
+  exists (firstn k Dnew), (skipn k Dnew ++ Q'). unfold extends_cov.
+  split.
+  { rewrite EL. rewrite <- !app_assoc. f_equal. rewrite app_assoc, firstn_skipn. reflexivity. }
+  split; [exact E1|]. split; [exact E2|]. split; [exact E3|]. split; [exact E4|exact E5].
+Qed.
+
+Lemma aligned_cont : forall start L a A d0 D0 Q f,
+  start + 2 < U64 -> log_ok start L = true -> L = A ++ (d0 :: D0) ++ Q -> Inv start a A ->
+  cover a ((d0 :: D0) ++ Q) -> bnd A ((d0 :: D0) ++ Q) -> bnd (A ++ d0 :: D0) Q ->
+  exists Dn B', extends_cov start L a A (apply_entries a (tp (d0 :: D0)) f) Dn B'.
+Proof.
+  intros start L a A d0 D0 Q f Hst HL EL HI Hc Hb1 Hb2.
+  destruct (N.lt_ge_cases (a_exp a) (w_seq d0)) as [Hgap|Hnogap].
+  - exists [], ((d0 :: D0) ++ Q). cbn [tp map]. rewrite gap_shape by exact Hgap.
+    apply extends_cov_nothing; assumption.
+  - assert (Hdiff : w_seq d0 <> gs start A \/ hd_error (a_gapp a) <> Some (serialize d0)).
+    { destruct (exists_last_or_nil _ A) as [->|(A' & x & ->)].
+      - right. rewrite (inv_gapp _ _ _ HI). cbn. discriminate.
+      - left. rewrite gs_snoc. intros C. apply (Hb1 A' x d0 (D0 ++ Q) eq_refl eq_refl). symmetry. exact C. }
+    rewrite (deliver_cont_shape start L a A d0 D0 Q f Hst HL EL HI Hnogap Hdiff).
+    apply (extends_cov_tail start L a A (d0 :: D0) Q); try assumption.
+    + intros _. apply lastseq_gs.
+    + intros C. discriminate.
+    + intros x Hx. rewrite (lastseq_gs start A d0 D0).
+      apply (bnd_above start (A ++ d0 :: D0) Q); try assumption.
+      * rewrite <- app_assoc. rewrite <- EL. exact HL.
+      * intros C. apply app_eq_nil in C. destruct C as [_ C]. discriminate.
+Qed.
+
+(* A delivery whose both ends are transaction boundaries, anywhere in the log. *)
+Theorem deliver_aligned : forall start L a A B P D Q f,
+  start + 2 < U64 -> log_ok start L = true -> L = A ++ B -> Inv start a A -> cover a B ->
+  L = P ++ D ++ Q -> bnd P (D ++ Q) -> bnd (P ++ D) Q ->
+  exists Dn B', extends_cov start L a A (apply_entries a (tp D) f) Dn B'.
+Proof.
+  intros start L a A B P D Q f Hst HL EA HI Hc EP Hb1 Hb2.
+  destruct D as [|d0 D0].
+  { exists [], B. cbn [tp map apply_entries]. apply extends_cov_nothing; assumption. }
+  pose proof HL as HLA. rewrite EA in HLA.
+  pose proof HL as HLP. rewrite EP in HLP.
+  assert (EQ : P ++ ((d0 :: D0) ++ Q) = A ++ B) by (rewrite <- EP, <- EA; reflexivity).
+  apply app_eq_app in EQ. destruct EQ as (l & [[E1 E2]|[E1 E2]]).
+  - (* P = A ++ l *)
+    destruct (exists_last_or_nil _ l) as [->|(l' & x & ->)].
+    + rewrite app_nil_r in E1. subst P. cbn [app] in E2. subst B.
+      apply (aligned_cont start L a A d0 D0 Q f); assumption.
+    + (* the delivery starts beyond the applied entries, behind a boundary: a gap *)
+      exists [], B. cbn [tp map].
+      assert (Hx : a_max a < w_seq x).
+      { apply Hc. rewrite E2. apply in_or_app. left. apply in_or_app. right. left. reflexivity. }
+      assert (EPx : P = (A ++ l') ++ [x]) by (rewrite E1, app_assoc; reflexivity).
+      assert (Hd : w_seq d0 = w_seq x + 1).
+      { cbn [app] in HLP.
+        destruct (gs_next _ _ _ _ HLP) as [E|[_ E]].
+        - exfalso. apply (Hb1 (A ++ l') x d0 (D0 ++ Q) EPx eq_refl).
+          rewrite E, EPx, gs_snoc. reflexivity.
+        - rewrite E, EPx, gs_snoc. reflexivity. }
+      rewrite gap_shape.
+      * apply extends_cov_nothing; assumption.
+      * cbn [to_proto p_seq]. rewrite (inv_exp _ _ _ HI). lia.
+  - (* A = P ++ l *)
+    destruct l as [|y l'].
+    + rewrite app_nil_r in E1. subst P. cbn [app] in E2. subst B.
+      apply (aligned_cont start L a A d0 D0 Q f); assumption.
+    + assert (EX : exists X, older start A = P ++ X).
+      { pose proof (split_newest _ _ _ HLA) as ES.
+        rewrite E1 in ES at 1. apply app_eq_app in ES.
+        destruct ES as (m & [[F1 F2]|[F1 F2]]).
+        - (* P = older ++ m *)
+          destruct (exists_last_or_nil _ m) as [->|(m' & z & ->)].
+          + exists []. rewrite app_nil_r in F1. rewrite F1, app_nil_r. reflexivity.
+          + exfalso.
+            assert (Hz : w_seq z = gs start A).
+            { apply newest_eq. rewrite F2. apply in_or_app. left. apply in_or_app. right. left. reflexivity. }
+            assert (Hy : w_seq y = gs start A).
+            { apply newest_eq. rewrite F2. apply in_or_app. right. left. reflexivity. }
+            cbn [app] in E2. injection E2 as Ed0 _.
+            apply (Hb1 (older start A ++ m') z d0 (D0 ++ Q)); [rewrite F1, app_assoc; reflexivity|reflexivity|].
+            rewrite Ed0. lia.
+        - exists m. exact F1. }
+      destruct EX as (X & EO).
+      destruct (deliver_old_shape start L a A B P X d0 D0 Q f Hst HL EA HI EP EO)
+        as (Dnew & Q' & EL & H1 & H2 & Hrel & Ego).
+      rewrite Ego.
+      assert (EB : B = Dnew ++ Q').
+      { apply (app_inv_head A). rewrite <- EA. exact EL. }
+      assert (Hls : lastseq (w_seq d0) D0 = gs start (P ++ d0 :: D0)) by apply lastseq_gs.
+      assert (Hbelow : forall x, In x Q -> lastseq (w_seq d0) D0 < w_seq x).
+      { intros x Hx. rewrite Hls. apply (bnd_above start (P ++ d0 :: D0) Q); try assumption.
+        - rewrite <- app_assoc. exact HLP.
+        - intros C. apply app_eq_nil in C. destruct C as [_ C]. discriminate. }
+      apply (extends_cov_tail start L a A Dnew Q'); try assumption.
+      * rewrite <- EB. exact Hc.
+      * intros x Hx. apply Hbelow.
+        destruct Hrel as [Hrel|(-> & R & ER)].
+        -- (* P ++ D = A ++ Dnew: Q' = Q *)
+           assert (Q' = Q).
+           { apply (app_inv_head (A ++ Dnew)). rewrite <- app_assoc, <- EL, <- Hrel.
+             rewrite EP. rewrite <- app_assoc. reflexivity. }
+           subst Q'. exact Hx.
+        -- (* the delivery lies inside A: Q = R ++ B *)
+           cbn [app] in EL, EB. subst Q'.
+           assert (Q = R ++ B).
+           { apply (app_inv_head (P ++ d0 :: D0)). rewrite <- app_assoc.
+             change (P ++ (d0 :: D0) ++ Q = (P ++ d0 :: D0) ++ R ++ B).
+             rewrite <- EP, EA, ER. rewrite <- !app_assoc. reflexivity. }
+           subst Q. apply in_or_app. right. exact Hx.
+Qed.
+
+(* ================================================================================ *)
+(* 7. schedules                                                                      *)
+(* ================================================================================ *)
+
+Lemma seg_split : forall (L : list wentry) i j, (i <= j)%nat ->
+  L = firstn i L ++ firstn (j - i) (skipn i L) ++ skipn j L /\
+  firstn i L ++ firstn (j - i) (skipn i L) = firstn j L.
+Proof.
+  intros L i j Hij.
+  assert (E : skipn j L = skipn (j - i) (skipn i L)).
+  { rewrite <- skipn_add. f_equal. lia. }
+  split.
+  - rewrite E, firstn_skipn, firstn_skipn. reflexivity.
+  - apply (app_inv_tail (skipn j L)). rewrite firstn_skipn.
+    rewrite <- app_assoc, E, firstn_skipn, firstn_skipn. reflexivity.
+Qed.
+
+(* position i of L is a boundary between two sequence numbers (or an end of the log) *)
+Definition cut_ok (L : list wentry) (i : nat) : Prop := bnd (firstn i L) (skipn i L).
+
+(* an event of a schedule that respects transaction boundaries: the delivery of a piece
+   L[i, j) with both ends on boundaries, with any apply failure; or a connection reset *)
+Definition aligned_event (L : list wentry) (ev : event) : Prop :=
+  match ev with
+  | EDeliver es f => exists i j, (i <= j)%nat /\ cut_ok L i /\ cut_ok L j /\ es = seg L i j
+  | EReset => True
+  | ERestart => False
+  end.
+
+(* what holds between the events of such a schedule *)
+Definition RInv (start : N) (L : list wentry) (s : rstate) : Prop :=
+  exists B, L = s_applied s ++ B /\ Inv start (r_ap (s_rep s)) (s_applied s) /\
+            cover (r_ap (s_rep s)) B.
+
+Lemma process_state : forall r es f,
+  let '(r', app, oc) := process r es f in
+  r_ap r' = d_state (apply_entries (r_ap r) es f) /\ app = d_applied (apply_entries (r_ap r) es f).
+Proof.
+  intros r es f. unfold process. destruct (d_res (apply_entries (r_ap r) es f)); cbn; auto.
+Qed.
+
+Lemma step_deliver : forall s es f,
+  r_ap (s_rep (step s (EDeliver es f))) = d_state (apply_entries (r_ap (s_rep s)) es f) /\
+  s_applied (step s (EDeliver es f)) = s_applied s ++ d_applied (apply_entries (r_ap (s_rep s)) es f).
+Proof.
+  intros s es f. cbn [step]. pose proof (process_state (s_rep s) es f) as H.
+  destruct (process (s_rep s) es f) as [[r' app] oc]. destruct H as [H1 H2].
+  cbn [s_rep s_applied]. rewrite H1, H2. auto.
+Qed.
+
+Lemma RInv_step : forall start L s ev, start + 2 < U64 -> log_ok start L = true ->
+  RInv start L s -> aligned_event L ev ->
+  RInv start L (step s ev) /\
+  a_max (r_ap (s_rep s)) <= a_max (r_ap (s_rep (step s ev))).
+Proof.
+  intros start L s ev Hst HL (B & EL & HI & Hc) Hev.
+  destruct ev as [es f| |]; [|split; [exists B; auto|cbn [step]; lia]|destruct Hev].
+  destruct Hev as (i & j & Hij & Hci & Hcj & ->).
+  destruct (seg_split L i j Hij) as [Esp Efj].
+  destruct (step_deliver s (seg L i j) f) as [E1 E2].
+  unfold cut_ok in Hci, Hcj.
+  assert (Hb1 : bnd (firstn i L) (firstn (j - i) (skipn i L) ++ skipn j L)).
+  { replace (firstn (j - i) (skipn i L) ++ skipn j L) with (skipn i L); [exact Hci|].
+    apply (app_inv_head (firstn i L)). rewrite firstn_skipn. exact Esp. }
+  assert (Hb2 : bnd (firstn i L ++ firstn (j - i) (skipn i L)) (skipn j L)) by (rewrite Efj; exact Hcj).
+  destruct (deliver_aligned start L (r_ap (s_rep s)) (s_applied s) B (firstn i L)
+              (firstn (j - i) (skipn i L)) (skipn j L) f Hst HL EL HI Hc Esp Hb1 Hb2)
+    as (Dn & B' & F1 & F2 & F3 & F4 & F5 & _).
+  unfold seg, tp in *. fold (tp (firstn (j - i) (skipn i L))) in *.
+  split.
+  - exists B'. rewrite E2, E1, F2. auto.
+  - rewrite E1. exact F5.
+Qed.
+
+Lemma RInv_init : forall start L, start + 2 < U64 -> log_ok start L = true ->
+  RInv start L (mkS (new_replica start) []).
+Proof.
+  intros start L Hst HL. exists L. cbn [s_applied s_rep new_replica r_ap app].
+  split; [reflexivity|]. split; [apply inv_init; exact Hst|].
+  intros x Hx. cbn [new_applier a_max]. apply log_ok_inv in HL. destruct HL as (_ & _ & Hs). apply Hs. exact Hx.
+Qed.
+
+Lemma RInv_run : forall start L evs s, start + 2 < U64 -> log_ok start L = true ->
+  RInv start L s -> Forall (aligned_event L) evs -> RInv start L (fold_left step evs s).
+Proof.
+  intros start L evs. induction evs as [|ev evs IH]; intros s Hst HL HR Hev; [exact HR|].
+  inversion Hev as [|? ? H1 H2]; subst. cbn [fold_left].
+  apply IH; try assumption. apply (RInv_step start L s ev); assumption.
+Qed.
+
+(* C13, for every schedule that respects transaction boundaries: whatever is duplicated,
+   dropped, reordered, overlapped, retransmitted, whichever applies fail, however often the
+   connection is reset - the replica has applied exactly a prefix of the primary's log, the
+   reported sequence number covers only completely applied transactions, and nothing of what
+   is not applied yet carries a number at or below it. *)
+Theorem prefix_aligned : forall start L evs, start + 2 < U64 -> log_ok start L = true ->
+  Forall (aligned_event L) evs ->
+  let s := run start evs in
+  exists n, s_applied s = firstn n L /\
+    a_max (r_ap (s_rep s)) <= gs start (firstn n L) /\
+    forall e, In e (skipn n L) -> a_max (r_ap (s_rep s)) < w_seq e.
+Proof.
+  intros start L evs Hst HL Hev s.
+  destruct (RInv_run start L evs _ Hst HL (RInv_init start L Hst HL) Hev) as (B & EL & HI & Hc).
+  fold (run start evs) in EL, HI, Hc. fold s in EL, HI, Hc.
+  exists (length (s_applied s)).
+  assert (E1 : firstn (length (s_applied s)) L = s_applied s).
+  { rewrite EL. rewrite firstn_app, firstn_all, PeanoNat.Nat.sub_diag. cbn [firstn]. apply app_nil_r. }
+  assert (E2 : skipn (length (s_applied s)) L = B).
+  { rewrite EL. apply skipn_app_exact. reflexivity. }
+  rewrite E1, E2. split; [reflexivity|]. split; [apply (inv_hi _ _ _ HI)|exact Hc].
+Qed.
+
+(* the cursor along such a schedule never decreases *)
+Theorem cursor_monotone_aligned : forall start L evs, start + 2 < U64 -> log_ok start L = true ->
+  Forall (aligned_event L) evs ->
+  forall pre ev post, evs = pre ++ ev :: post ->
+    a_max (r_ap (s_rep (run start pre))) <= a_max (r_ap (s_rep (run start (pre ++ [ev])))).
+Proof.
+  intros start L evs Hst HL Hev pre ev post ->.
+  apply Forall_app in Hev. destruct Hev as [Hpre Hrest].
+  inversion Hrest as [|? ? Hev _]; subst.
+  pose proof (RInv_run start L pre _ Hst HL (RInv_init start L Hst HL) Hpre) as HR.
+  unfold run. rewrite fold_left_app. cbn [fold_left].
+  apply (RInv_step start L _ ev Hst HL HR Hev).
+Qed.
+
+(* ================================================================================ *)
+(* 8. corollaries: nothing skipped, nothing duplicated; progress; the wire           *)
+(* ================================================================================ *)
+
+Lemma nth_error_firstn_some : forall (T : Type) n (l : list T) k e,
+  nth_error (firstn n l) k = Some e -> nth_error l k = Some e.
+Proof.
+  induction n as [|n IH]; intros l k e H.
+  - destruct k; discriminate.
+  - destruct l as [|x l]; [destruct k; discriminate|].
+    destruct k as [|k]; [exact H|]. cbn [firstn nth_error] in *. apply IH. exact H.
+Qed.
+
+(* the k-th entry handed to the replica's engine is the k-th entry of the primary's log *)
+Theorem no_skip_no_dup_aligned : forall start L evs, start + 2 < U64 -> log_ok start L = true ->
+  Forall (aligned_event L) evs ->
+  forall k e, nth_error (s_applied (run start evs)) k = Some e -> nth_error L k = Some e.
+Proof.
+  intros start L evs Hst HL Hev k e H.
+  destruct (prefix_aligned start L evs Hst HL Hev) as (n & E & _).
+  rewrite E in H. apply (nth_error_firstn_some _ n). exact H.
+Qed.
+
+(* a delivery that starts exactly where the applied entries end, passes the hole check and
+   meets no failing apply is applied completely *)
+Theorem progress : forall start L a A d0 D0 Q,
+  start + 2 < U64 -> log_ok start L = true -> L = A ++ (d0 :: D0) ++ Q -> Inv start a A ->
+  w_seq d0 <= a_exp a ->
+  (w_seq d0 <> gs start A \/ hd_error (a_gapp a) <> Some (serialize d0)) ->
+  let d := apply_entries a (tp (d0 :: D0)) None in
+  d_applied d = d0 :: D0 /\ d_res d = ROk /\ a_max (d_state d) = gs start (A ++ d0 :: D0) /\
+  Inv start (d_state d) (A ++ d0 :: D0).
+Proof.
+  intros start L a A d0 D0 Q Hst HL EL HI Hexp Hdiff d. subst d.
+  rewrite (deliver_cont_shape start L a A d0 D0 Q None Hst HL EL HI Hexp Hdiff).
+  rewrite EL in HL.
+  destruct (tail_spec start a A (d0 :: D0) Q None (lastseq (w_seq d0) D0) Hst HL HI)
+    as (k & E1 & E2 & E3 & E4 & E5).
+  - intros _. apply lastseq_gs.
+  - intros C. discriminate.
+  - destruct E5 as [(R1 & R2 & R3)|(_ & C & _)]; [|discriminate].
+    rewrite R2, firstn_all in E1, E2. split; [exact E1|]. split; [exact R1|]. split; [|exact E2].
+    rewrite R3. rewrite (lastseq_gs start A d0 D0).
+    pose proof (inv_hi _ _ _ HI). pose proof (gs_mono start A (d0 :: D0) Q HL). lia.
+Qed.
+
+Section WireProof.
+  Variable compress : N -> bytes -> bytes.
+  Variable decompress : N -> bytes -> option bytes.
+  Variable codec : N.
+  (* the external codecs are lossless and do not compress a non-empty payload to nothing *)
+  Hypothesis roundtrip : forall p, p <> [] ->
+    compress codec p <> [] /\ decompress codec (compress codec p) = Some p.
+
+  Definition wire (es : list pentry) : list pentry :=
+    map (fun e => mkP (p_seq e) (compress codec (p_payload e))) es.
+
+  Theorem unwire_wire : forall es, (forall e, In e es -> p_payload e <> []) ->
+    unwire decompress true codec (wire es) = Some es.
+  Proof.
+    unfold unwire. induction es as [|e es IH]; intros H; [reflexivity|].
+    cbn [wire map unwire_entries p_payload p_seq]. fold (wire es).
+    destruct (roundtrip (p_payload e) (H e (or_introl eq_refl))) as [R1 R2].
+    destruct (compress codec (p_payload e)) as [|b bs] eqn:Ec; [contradiction|].
+    rewrite R2. rewrite IH by (intros x Hx; apply H; right; exact Hx).
+    destruct e; reflexivity.
+  Qed.
+
+  Lemma serialize_nonempty : forall e, serialize e <> [].
+  Proof. intros e. unfold serialize. discriminate. Qed.
+
+  (* compressed or not, the replica sees the entries the primary serialised *)
+  Corollary unwire_log : forall D, unwire decompress true codec (wire (tp D)) = Some (tp D).
+  Proof.
+    intros D. apply unwire_wire. intros e He. unfold tp in He. apply in_map_iff in He.
+    destruct He as (x & <- & _). apply serialize_nonempty.
+  Qed.
+End WireProof.
+
+(* ================================================================================ *)
+(* 9. where the statement does not hold: witnesses                                   *)
+(* ================================================================================ *)
+
+Lemma not_prefix_by_position : forall (A L : list wentry) k x y,
+  nth_error A k = Some x -> nth_error L k = Some y -> x <> y -> forall n, A <> firstn n L.
+Proof.
+  intros A L k x y HA HL Hne n E. rewrite E in HA.
+  apply nth_error_firstn_some in HA. rewrite HA in HL. inversion HL. contradiction.
+Qed.
+
+Definition bk (c : N) : bytes := [c].
+Definition mkput (s : N) (k v : N) : wentry := mkW OpPut s (bk k) (bk v).
+
+(* (b) a delivery that ends inside a transaction is acknowledged with the transaction's
+   number; the sender then continues with the next number and the rest of the transaction is
+   never applied *)
+Definition Lcut : list wentry := [mkput 1 97 1; mkput 1 98 2; mkput 2 99 3].
+Definition cut_sched : list event := [EDeliver (seg Lcut 0 1) None; EDeliver (seg Lcut 2 3) None].
+
+Theorem cut_refuted :
+  log_ok 0 Lcut = true /\
+  s_applied (run 0 cut_sched) = [mkput 1 97 1; mkput 2 99 3] /\
+  (forall n, s_applied (run 0 cut_sched) <> firstn n Lcut) /\
+  (* already after the first delivery the cursor claims number 1, of which (b,2) is missing *)
+  a_max (r_ap (s_rep (run 0 [EDeliver (seg Lcut 0 1) None]))) = 1 /\
+  nth_error Lcut 1 = Some (mkput 1 98 2).
+Proof.
+  split; [vm_compute; reflexivity|]. split; [vm_compute; reflexivity|].
+  split.
+  - apply (not_prefix_by_position _ Lcut 1 (mkput 2 99 3) (mkput 1 98 2)); try (vm_compute; reflexivity).
+    discriminate.
+  - split; vm_compute; reflexivity.
+Qed.
+
+(* the same, produced by the primary's own fetch policy: getWALEntriesFromSequence returns at
+   most 100 entries, the replica acknowledges the last number, the next fetch starts behind it *)
+Fixpoint singles (n : nat) (s : N) : list wentry :=
+  match n with O => [] | S n' => mkput s 107 (s mod 256) :: singles n' (s + 1) end.
+Definition Lpoll : list wentry := singles 99 1 ++ [mkput 100 116 1; mkput 100 117 2; mkput 101 122 9].
+Definition poll_sched : list event :=
+  [EDeliver (poll Lpoll 1) None; EDeliver (poll Lpoll 101) None].
+
+Theorem poll_limit_refuted :
+  log_ok 0 Lpoll = true /\
+  a_max (r_ap (s_rep (run 0 [EDeliver (poll Lpoll 1) None]))) = 100 /\
+  nth_error (s_applied (run 0 poll_sched)) 100 = Some (mkput 101 122 9) /\
+  nth_error Lpoll 100 = Some (mkput 100 117 2) /\
+  forall n, s_applied (run 0 poll_sched) <> firstn n Lpoll.
+Proof.
+  split; [vm_compute; reflexivity|]. split; [vm_compute; reflexivity|].
+  split; [vm_compute; reflexivity|]. split; [vm_compute; reflexivity|].
+  apply (not_prefix_by_position _ Lpoll 100 (mkput 101 122 9) (mkput 100 117 2)); try (vm_compute; reflexivity).
+  discriminate.
+Qed.
+
+(* (c) one batch that writes A, B, A, delivered one entry per response: the third entry looks
+   like a repetition of the first and is skipped for good *)
+Definition Laba : list wentry := [mkput 1 65 1; mkput 1 66 2; mkput 1 65 1; mkput 2 67 3].
+Definition aba_sched : list event :=
+  [EDeliver (seg Laba 0 1) None; EDeliver (seg Laba 1 2) None; EDeliver (seg Laba 2 3) None;
+   EDeliver (seg Laba 3 4) None].
+
+Theorem equal_payload_refuted :
+  log_ok 0 Laba = true /\
+  s_applied (run 0 aba_sched) = [mkput 1 65 1; mkput 1 66 2; mkput 2 67 3] /\
+  forall n, s_applied (run 0 aba_sched) <> firstn n Laba.
+Proof.
+  split; [vm_compute; reflexivity|]. split; [vm_compute; reflexivity|].
+  apply (not_prefix_by_position _ Laba 2 (mkput 2 67 3) (mkput 1 65 1)); try (vm_compute; reflexivity).
+  discriminate.
+Qed.
+
+(* a delivery that starts inside a transaction which is applied already is applied again,
+   behind later entries: the replica's data is no state the primary ever had *)
+Definition Lmid : list wentry := [mkput 1 107 1; mkput 1 109 1; mkput 1 109 2; mkput 1 107 2].
+Definition mid_sched : list event := [EDeliver (seg Lmid 0 4) None; EDeliver (seg Lmid 1 2) None].
+
+Theorem enters_group_refuted :
+  log_ok 0 Lmid = true /\
+  s_applied (run 0 mid_sched) = Lmid ++ [mkput 1 109 1] /\
+  forall n, view (s_applied (run 0 mid_sched)) <> view (firstn n Lmid).
+Proof.
+  split; [vm_compute; reflexivity|]. split; [vm_compute; reflexivity|].
+  intros n. do 5 (destruct n as [|n]; [vm_compute; discriminate|]). vm_compute. discriminate.
+Qed.
+
+(* (d) a restart: the new Replica starts from sequence 0, asks for the log from 1 and applies
+   it again on top of the data it has; the reported sequence goes back *)
+Definition Lrst : list wentry := [mkput 1 107 1; mkput 2 107 2].
+Definition rst_sched : list event :=
+  [EDeliver (seg Lrst 0 2) None; ERestart; EDeliver (seg Lrst 0 1) None].
+
+Theorem restart_refuted :
+  log_ok 0 Lrst = true /\
+  s_applied (run 0 rst_sched) = [mkput 1 107 1; mkput 2 107 2; mkput 1 107 1] /\
+  cursors (mkS (new_replica 0) []) rst_sched = [2; 0; 1] /\
+  (* the data is back at the state before the second write, which had been applied *)
+  view (s_applied (run 0 rst_sched)) = view (firstn 1 Lrst) /\
+  view (s_applied (run 0 [EDeliver (seg Lrst 0 2) None])) = view Lrst /\ view Lrst <> view (firstn 1 Lrst) /\
+  stream_start (s_rep (run 0 [EDeliver (seg Lrst 0 2) None; ERestart])) = 1.
+Proof.
+  split; [vm_compute; reflexivity|]. split; [vm_compute; reflexivity|].
+  split; [vm_compute; reflexivity|]. split; [vm_compute; reflexivity|].
+  split; [vm_compute; reflexivity|]. split; [vm_compute; discriminate|vm_compute; reflexivity].
+Qed.
+
+(* a merge entry (reachable through ApplyBatch of the embedded API) is a put on the replica
+   and nothing on the primary *)
+Theorem merge_refuted :
+  let L := [mkW OpMerge 1 (bk 107) (bk 1)] in
+  log_ok 0 L = true /\ view L = [(bk 107, bk 1)] /\ primary_view L = [].
+Proof. split; [vm_compute; reflexivity|]. split; vm_compute; reflexivity. Qed.
+
+(* ---- the hypotheses of the positive theorems are satisfiable ---- *)
+Definition Lok : list wentry :=
+  [mkput 1 97 1; mkput 2 98 2; mkput 2 99 3; mkW OpDel 2 (bk 97) []; mkput 3 97 4; mkput 4 100 5; mkput 4 100 5].
+Definition ok_sched : list event :=
+  [EDeliver (seg Lok 0 1) None;              (* first entry *)
+   EDeliver (seg Lok 4 5) None;              (* from the future: gap *)
+   EDeliver (seg Lok 1 5) (Some 2%nat);      (* transaction 2 fails at its third entry *)
+   EReset;
+   EDeliver (seg Lok 0 4) None;              (* overlapping redelivery finishes it *)
+   EDeliver (seg Lok 1 4) None;              (* duplicate *)
+   EDeliver (seg Lok 4 7) None;              (* the rest; the last batch writes one key twice *)
+   EDeliver (seg Lok 0 7) None].
+
+(* an executable test for "position i is a boundary" *)
+Fixpoint cutb (prev : option N) (L : list wentry) (i : nat) : bool :=
+  match i, L with
+  | O, [] => true
+  | O, y :: _ => match prev with None => true | Some s => negb (s =? w_seq y) end
+  | S i', x :: L' => cutb (Some (w_seq x)) L' i'
+  | S _, [] => true
+  end.
+
+Definition lastopt (M : list wentry) : option N :=
+  match rev M with [] => None | x :: _ => Some (w_seq x) end.
+
+Lemma lastopt_snoc : forall M x, lastopt (M ++ [x]) = Some (w_seq x).
+Proof. intros. unfold lastopt. rewrite rev_app_distr. reflexivity. Qed.
+
+Lemma cutb_bnd : forall i L M, cutb (lastopt M) L i = true -> bnd (M ++ firstn i L) (skipn i L).
+Proof.
+  induction i as [|i IH]; intros L M H.
+  - cbn [firstn skipn]. rewrite app_nil_r. intros M' x y R' E1 E2. subst L M.
+    cbn [cutb] in H. rewrite lastopt_snoc in H.
+    intros C. rewrite C, N.eqb_refl in H. discriminate.
+  - destruct L as [|x L].
+    + cbn [firstn skipn]. intros M' a y R' _ E2. discriminate.
+    + cbn [firstn skipn cutb] in *.
+      replace (M ++ x :: firstn i L) with ((M ++ [x]) ++ firstn i L) by (rewrite <- app_assoc; reflexivity).
+      apply IH. rewrite lastopt_snoc. exact H.
+Qed.
+
+Lemma cutb_ok : forall L i, cutb None L i = true -> cut_ok L i.
+Proof. intros L i H. apply (cutb_bnd i L []). exact H. Qed.
+
+Lemma aligned_deliver_intro : forall L (i j : nat) f, Nat.leb i j = true ->
+  cutb None L i = true -> cutb None L j = true -> aligned_event L (EDeliver (seg L i j) f).
+Proof.
+  intros L i j f H1 H2 H3. exists i, j. split; [apply PeanoNat.Nat.leb_le; exact H1|].
+  split; [apply cutb_ok; exact H2|]. split; [apply cutb_ok; exact H3|reflexivity].
+Qed.
+
+Example prefix_aligned_sat :
+  log_ok 0 Lok = true /\ Forall (aligned_event Lok) ok_sched /\
+  s_applied (run 0 ok_sched) = Lok /\
+  cursors (mkS (new_replica 0) []) ok_sched = [1; 1; 1; 1; 2; 2; 4; 4].
+Proof.
+  split; [vm_compute; reflexivity|]. split; [|split; vm_compute; reflexivity].
+  unfold ok_sched.
+  repeat (constructor; [first [exact I | apply aligned_deliver_intro; vm_compute; reflexivity]|]).
+  constructor.
+Qed.
+
+(* deliver_safe / progress also cover deliveries cut inside a transaction, as long as the next
+   one starts at the transaction's first entry or exactly where the previous one ended *)
+Definition Lsplit : list wentry := [mkput 1 97 1; mkput 2 98 2; mkput 2 99 3; mkput 2 100 4; mkput 3 97 5].
+Definition st_split : applier := r_ap (s_rep (run 0 [EDeliver (seg Lsplit 0 3) None])).
+
+Example deliver_safe_sat :
+  log_ok 0 Lsplit = true /\ Inv 0 st_split (firstn 3 Lsplit) /\
+  older 0 (firstn 3 Lsplit) = firstn 1 Lsplit ++ [] /\
+  (* the poll from the transaction's number: entries 1..4, of which 1..2 are skipped *)
+  d_applied (apply_entries st_split (tp (firstn 4 (skipn 1 Lsplit))) None) = skipn 3 Lsplit /\
+  (* the exact continuation *)
+  d_applied (apply_entries st_split (tp (skipn 3 Lsplit)) None) = skipn 3 Lsplit /\
+  hd_error (a_gapp st_split) <> Some (serialize (mkput 2 100 4)).
+Proof.
+  split; [vm_compute; reflexivity|]. split.
+  - constructor; vm_compute; try reflexivity; discriminate.
+  - split; [vm_compute; reflexivity|]. split; [vm_compute; reflexivity|].
+    split; [vm_compute; reflexivity|]. vm_compute. discriminate.
+Qed.
+
+Example deliver_rejected_sat :
+  apply_entries (new_applier 0) (tp (skipn 1 Lsplit)) None = mkD (new_applier 0) [] 0 RGap /\
+  apply_entries st_split [to_proto (mkput 2 100 4); to_proto (mkput 4 100 4)] None = mkD st_split [] 2 RGap.
+Proof. split; vm_compute; reflexivity. Qed.
+
+(* ================================================================================ *)
+(* 10. the reported cursor, for EVERY delivery (honest, cut, repeated, malformed)    *)
+(* ================================================================================ *)
+
+(* what the cursor must stay below: the newest number of which an entry was applied; with
+   nothing applied yet, the number the applier was started with *)
+Definition beta (a : applier) : N := match a_gapp a with [] => a_max a | _ => a_gseq a end.
+
+Record LI (a : applier) : Prop := mkLI {
+  li_exp : a_exp a = a_max a + 1;
+  li_bound : a_max a + 1 < U64;
+  li_gpos : 1 <= a_gseq a;
+  li_fresh : a_gapp a = [] -> a_gseq a = a_max a + 1;
+  li_hi : a_gapp a <> [] -> a_max a <= a_gseq a
+}.
+
+Lemma LI_beta : forall a, LI a -> a_max a <= beta a.
+Proof.
+  intros a H. unfold beta. destruct (a_gapp a) eqn:E; [lia|].
+  apply (li_hi a H). rewrite E. discriminate.
+Qed.
+
+Lemma LI_init : forall start, start + 2 < U64 -> LI (new_applier start).
+Proof.
+  intros start H. unfold new_applier.
+  assert (E : (if 0 <? start then succ64 start else 1) = start + 1).
+  { destruct (0 <? start) eqn:Z; [apply succ64_small; lia|apply N.ltb_ge in Z; lia]. }
+  rewrite E. constructor; cbn [a_exp a_max a_gseq a_gapp]; try lia; try reflexivity.
+  all: try (intros C; contradiction).
+Qed.
+
+Lemma steps_ok_mono : forall l p, steps_ok p l = true -> p + 1 < U64 ->
+  (forall e, In e l -> p_seq e + 1 < U64) -> forall e, In e l -> p <= p_seq e.
+Proof.
+  induction l as [|x l IH]; intros p H Hp Hb e He; [destruct He|].
+  cbn [steps_ok] in H. apply andb_prop in H. destruct H as [H1 H2].
+  rewrite succ64_small in H1 by exact Hp.
+  assert (p <= p_seq x) by (apply orb_prop in H1; destruct H1 as [E|E]; apply N.eqb_eq in E; lia).
+  destruct He as [<-|He]; [assumption|].
+  assert (p_seq x <= p_seq e); [|lia].
+  apply (IH (p_seq x)); try assumption.
+  - apply Hb. left. reflexivity.
+  - intros y Hy. apply Hb. right. exact Hy.
+Qed.
+
+Lemma advance_LI : forall a s, LI a -> s + 1 < U64 -> s <= beta a -> LI (advance_to a s) /\
+  a_max a <= a_max (advance_to a s) /\ a_gapp (advance_to a s) = a_gapp a /\
+  a_gseq (advance_to a s) = a_gseq a.
+Proof.
+  intros a s H Hs Hb.
+  destruct (advance_to_spec a s (li_exp a H) Hs) as (S1 & S2 & S3 & S4 & _).
+  split; [|split; [rewrite S1; lia|split; assumption]].
+  unfold beta in Hb.
+  constructor.
+  - exact S2.
+  - rewrite S1. pose proof (li_bound a H). lia.
+  - rewrite S3. apply (li_gpos a H).
+  - rewrite S3, S4, S1. intros E. rewrite E in Hb. rewrite (li_fresh a H E). lia.
+  - rewrite S3, S4, S1. intros E. pose proof (li_hi a H E). destruct (a_gapp a); [contradiction|]. lia.
+Qed.
+
+Lemma note_LI : forall a e, LI a -> a_gseq a <= p_seq e -> p_seq e + 1 < U64 ->
+  LI (note_applied a e) /\ a_max (note_applied a e) = a_max a /\
+  a_gapp (note_applied a e) <> [] /\ a_gseq (note_applied a e) = p_seq e.
+Proof.
+  intros a e H Hg Hb. unfold note_applied.
+  destruct (p_seq e =? a_gseq a) eqn:E.
+  - apply N.eqb_eq in E. cbn [a_max a_gapp a_gseq].
+    split; [|split; [reflexivity|split; [intros C; apply app_eq_nil in C; destruct C; discriminate|symmetry; exact E]]].
+    constructor; cbn [a_exp a_max a_gseq a_gapp].
+    + apply (li_exp a H). + apply (li_bound a H). + apply (li_gpos a H).
+    + intros C. apply app_eq_nil in C. destruct C; discriminate.
+    + intros _. destruct (a_gapp a) eqn:G.
+      * rewrite (li_fresh a H G). lia.
+      * apply (li_hi a H). rewrite G. discriminate.
+  - apply N.eqb_neq in E. cbn [a_max a_gapp a_gseq].
+    split; [|split; [reflexivity|split; [discriminate|reflexivity]]].
+    constructor; cbn [a_exp a_max a_gseq a_gapp].
+    + apply (li_exp a H). + apply (li_bound a H). + pose proof (li_gpos a H). lia.
+    + discriminate.
+    + intros _. destruct (a_gapp a) eqn:G.
+      * rewrite (li_fresh a H G) in Hg. lia.
+      * assert (a_max a <= a_gseq a) by (apply (li_hi a H); rewrite G; discriminate). lia.
+Qed.
+
+(* the apply loop, for arbitrary wire entries *)
+Lemma loop_gen : forall l a f acc,
+  LI a ->
+  match l with [] => True | e :: r => p_seq e <= beta a + 1 /\ steps_ok (p_seq e) r = true end ->
+  (forall e, In e l -> a_gseq a <= p_seq e /\ p_seq e + 1 < U64) ->
+  let r := apply_loop a l f acc in
+  LI (fst (fst r)) /\ a_max a <= a_max (fst (fst r)) /\
+  (snd r = ROk ->
+     a_max (fst (fst r)) = a_max a /\
+     match l with
+     | [] => fst (fst r) = a
+     | e :: rest => a_gapp (fst (fst r)) <> [] /\ a_gseq (fst (fst r)) = p_seq (last rest e)
+     end).
+Proof.
+  induction l as [|e l IH]; intros a f acc HLI Hhead Hall.
+  - cbn [apply_loop fst snd]. split; [exact HLI|]. split; [lia|]. intros _. split; reflexivity.
+  - destruct Hhead as [Hh Hst].
+    destruct (Hall e (or_introl eq_refl)) as [Hge Hbe].
+    assert (Hfail : LI (advance_to a (pred64 (p_seq e))) /\ a_max a <= a_max (advance_to a (pred64 (p_seq e)))).
+    { pose proof (li_gpos a HLI).
+      rewrite pred64_pos by lia.
+      destruct (advance_LI a (p_seq e - 1) HLI) as (A1 & A2 & _); [lia|lia|]. split; assumption. }
+    cbn [apply_loop].
+    destruct (deserialize (p_payload e)) as [w|c].
+    2:{ cbn [fst snd]. destruct Hfail. split; [assumption|]. split; [assumption|]. intros C. discriminate. }
+    assert (Hrec : forall f',
+      let r := apply_loop (note_applied a e) l f' (acc ++ [w]) in
+      LI (fst (fst r)) /\ a_max a <= a_max (fst (fst r)) /\
+      (snd r = ROk -> a_max (fst (fst r)) = a_max a /\
+         a_gapp (fst (fst r)) <> [] /\ a_gseq (fst (fst r)) = p_seq (last l e))).
+    { intros f'.
+      destruct (note_LI a e HLI Hge Hbe) as (N1 & N2 & N3 & N4).
+      assert (Hb1 : beta (note_applied a e) = p_seq e).
+      { unfold beta. destruct (a_gapp (note_applied a e)); [contradiction|exact N4]. }
+      specialize (IH (note_applied a e) f' (acc ++ [w]) N1).
+      assert (Hmono : forall x, In x l -> p_seq e <= p_seq x).
+      { apply steps_ok_mono; [exact Hst|exact Hbe|]. intros y Hy. apply Hall. right. exact Hy. }
+      destruct IH as (I1 & I2 & I3).
+      - destruct l as [|x l']; [exact I|].
+        cbn [steps_ok] in Hst. apply andb_prop in Hst. destruct Hst as [S1 S2].
+        rewrite succ64_small in S1 by exact Hbe.
+        split; [|exact S2]. rewrite Hb1.
+        apply orb_prop in S1. destruct S1 as [E|E]; apply N.eqb_eq in E; lia.
+      - intros x Hx. rewrite N4. split; [apply Hmono; exact Hx|apply Hall; right; exact Hx].
+      - cbv zeta. split; [exact I1|]. split; [rewrite <- N2; exact I2|].
+        intros Hok. destruct (I3 Hok) as [J1 J2]. split; [rewrite J1; exact N2|].
+        destruct l as [|x l'].
+        + rewrite J2. split; [exact N3|exact N4].
+        + destruct J2 as [J2 J3]. split; [exact J2|].
+          rewrite J3, last_cons_default. reflexivity. }
+    destruct f as [[|k]|].
+    + cbn [fst snd]. destruct Hfail. split; [assumption|]. split; [assumption|]. intros C. discriminate.
+    + apply Hrec.
+    + apply Hrec.
+Qed.
+
+Lemma skip_old_split : forall g l, exists pre,
+  l = pre ++ skip_old g l /\ (forall x, In x pre -> p_seq x < g) /\
+  match skip_old g l with [] => True | e :: _ => g <= p_seq e end.
+Proof.
+  induction l as [|x l IH].
+  - exists []. cbn [app skip_old]. split; [reflexivity|]. split; [intros y []|exact I].
+  - cbn [skip_old]. destruct (p_seq x <? g) eqn:E.
+    + destruct IH as (pre & E1 & E2 & E3). exists (x :: pre). cbn [app]. split; [f_equal; exact E1|].
+      split; [|exact E3]. intros y [<-|Hy]; [apply N.ltb_lt; exact E|apply E2; exact Hy].
+    + exists []. cbn [app]. split; [reflexivity|]. split; [intros y []|apply N.ltb_ge; exact E].
+Qed.
+
+Lemma firstn_run : forall g l n, (n <= run_len g l)%nat ->
+  forall x, In x (firstn n l) -> p_seq x = g.
+Proof.
+  induction l as [|y l IH]; intros n Hn x Hx.
+  - destruct n; destruct Hx.
+  - destruct n as [|n]; [destruct Hx|]. cbn [run_len] in Hn.
+    destruct (p_seq y =? g) eqn:E; [|lia].
+    cbn [firstn] in Hx. destruct Hx as [<-|Hx]; [apply N.eqb_eq; exact E|].
+    apply (IH n); [lia|exact Hx].
+Qed.
+
+Definition lastp (p : N) (pre : list pentry) : N := p_seq (last pre (mkP p [])).
+
+Lemma steps_ok_suffix : forall pre p l, steps_ok p (pre ++ l) = true -> steps_ok (lastp p pre) l = true.
+Proof.
+  induction pre as [|x pre IH]; intros p l H; [exact H|].
+  cbn [app steps_ok] in H. apply andb_prop in H. destruct H as [_ H].
+  unfold lastp. rewrite last_cons_default.
+  specialize (IH (p_seq x) l H). unfold lastp in IH.
+  destruct pre as [|y pre]; [exact IH|].
+  rewrite last_cons_default in IH. rewrite last_cons_default. exact IH.
+Qed.
+
+Lemma last_app_nonempty : forall (T : Type) (pre l : list T) d, l <> [] -> last (pre ++ l) d = last l d.
+Proof.
+  intros T pre l d H. destruct (exists_last H) as (l' & x & ->).
+  rewrite app_assoc, !last_last. reflexivity.
+Qed.
+
+(* C13, the cursor: for every delivery whatsoever - any wire entries, any payloads, any apply
+   failure - the applier's bookkeeping stays consistent, the reported sequence number does not
+   decrease and does not exceed the newest number of which an entry was applied. *)
+Theorem cursor_step : forall a es f, LI a -> (forall e, In e es -> p_seq e + 1 < U64) ->
+  let d := apply_entries a es f in
+  LI (d_state d) /\ a_max a <= a_max (d_state d) /\ d_ret d = a_max (d_state d).
+Proof.
+  intros a es f HLI Hb d. subst d.
+  destruct es as [|e0 rest].
+  { cbn [apply_entries d_state d_ret]. split; [exact HLI|]. split; [lia|reflexivity]. }
+  destruct (a_exp a <? p_seq e0) eqn:Egap.
+  { apply N.ltb_lt in Egap. rewrite gap_shape by exact Egap. cbn [d_state d_ret].
+    split; [exact HLI|]. split; [lia|reflexivity]. }
+  destruct (steps_ok (p_seq e0) rest) eqn:Est.
+  2:{ rewrite hole_shape by exact Est. cbn [d_state d_ret]. split; [exact HLI|]. split; [lia|reflexivity]. }
+  rewrite (apply_entries_go a e0 rest f Egap Est). cbv zeta.
+  apply N.ltb_ge in Egap.
+  set (g := a_gseq a). set (es := e0 :: rest) in *.
+  assert (Hfull : steps_ok (p_seq e0) es = true).
+  { unfold es. cbn [steps_ok]. rewrite N.eqb_refl. cbn [orb andb]. exact Est. }
+  assert (Hb0 : p_seq e0 + 1 < U64) by (apply Hb; left; reflexivity).
+  destruct (skip_old_split g es) as (pre1 & P1 & P2 & P3).
+  set (l1 := skip_old g es) in *.
+  set (n := Nat.min (run_len g l1) (length (a_gapp a))).
+  (* the entries of l1 are at least g *)
+  assert (Hl1 : forall x, In x l1 -> g <= p_seq x).
+  { destruct l1 as [|h t] eqn:El1; [intros x []|].
+    rewrite P1 in Hfull. apply steps_ok_suffix in Hfull.
+    cbn [steps_ok] in Hfull. apply andb_prop in Hfull. destruct Hfull as [_ Hfull].
+    intros x [<-|Hx]; [exact P3|].
+    assert (p_seq h <= p_seq x); [|lia].
+    apply (steps_ok_mono t (p_seq h) Hfull).
+    - apply Hb. rewrite P1. apply in_or_app. right. left. reflexivity.
+    - intros y Hy. apply Hb. rewrite P1. apply in_or_app. right. right. exact Hy.
+    - exact Hx. }
+  pose proof (LI_beta a HLI) as Hmb.
+  assert (Hpre1 : forall x, In x pre1 -> p_seq x <= beta a).
+  { intros x Hx. specialize (P2 x Hx). unfold beta. destruct (a_gapp a) eqn:G.
+    - pose proof (li_fresh a HLI G). fold g in H. lia.
+    - fold g. lia. }
+  assert (Hn0 : a_gapp a = [] -> n = 0%nat).
+  { intros G0. unfold n. rewrite G0. cbn [length]. apply PeanoNat.Nat.min_0_r. }
+  (* what goes to the apply loop: a suffix l2 of the delivery, everything before it is old *)
+  set (l2 := if negb (Nat.eqb n 0) && repeats n l1 (a_gapp a) then skipn n l1 else l1).
+  assert (Hl2 : exists pre, es = pre ++ l2 /\ (forall x, In x pre -> p_seq x <= beta a) /\
+                            (forall x, In x l2 -> g <= p_seq x)).
+  { subst l2. destruct (negb (Nat.eqb n 0) && repeats n l1 (a_gapp a)) eqn:Esk.
+    - exists (pre1 ++ firstn n l1). split; [|split].
+      + rewrite <- app_assoc, firstn_skipn. exact P1.
+      + intros x Hx. apply in_app_or in Hx. destruct Hx as [Hx|Hx]; [apply Hpre1; exact Hx|].
+        assert (p_seq x = g).
+        { apply (firstn_run g l1 n); [|exact Hx]. unfold n. apply PeanoNat.Nat.le_min_l. }
+        apply andb_prop in Esk. destruct Esk as [Esk _].
+        unfold beta. destruct (a_gapp a) eqn:G.
+        * exfalso. rewrite (Hn0 eq_refl) in Esk. discriminate.
+        * fold g. lia.
+      + intros x Hx. apply Hl1. rewrite <- (firstn_skipn n l1). apply in_or_app. right. exact Hx.
+    - exists pre1. split; [exact P1|]. split; [exact Hpre1|exact Hl1]. }
+  destruct Hl2 as (pre & Q1 & Q2 & Q3).
+  assert (Hhead : match l2 with [] => True | e :: r => p_seq e <= beta a + 1 /\ steps_ok (p_seq e) r = true end).
+  { destruct l2 as [|h t] eqn:El2; [exact I|].
+    rewrite Q1 in Hfull. apply steps_ok_suffix in Hfull.
+    cbn [steps_ok] in Hfull. apply andb_prop in Hfull. destruct Hfull as [Hh Ht]. split; [|exact Ht].
+    assert (Hlp : lastp (p_seq e0) pre <= beta a /\ lastp (p_seq e0) pre + 1 < U64 \/
+                  (pre = [] /\ lastp (p_seq e0) pre = p_seq e0)).
+    { destruct (exists_last_or_nil _ pre) as [->|(pre' & z & ->)]; [right; split; reflexivity|left].
+      unfold lastp. rewrite last_last. split.
+      - apply Q2. apply in_or_app. right. left. reflexivity.
+      - apply Hb. fold es. rewrite Q1. apply in_or_app. left. apply in_or_app. right. left. reflexivity. }
+    destruct Hlp as [[Hl1' Hl2']|[Hp Hl]].
+    - rewrite succ64_small in Hh by exact Hl2'.
+      apply orb_prop in Hh. destruct Hh as [E|E]; apply N.eqb_eq in E; lia.
+    - subst pre. cbn [app] in Q1. rewrite Hl in Hh.
+      assert (h = e0) by (unfold es in Q1; inversion Q1; reflexivity). subst h.
+      rewrite (li_exp a HLI) in Egap. lia. }
+  assert (Hall : forall e, In e l2 -> a_gseq a <= p_seq e /\ p_seq e + 1 < U64).
+  { intros e He. split; [apply Q3; exact He|]. apply Hb. fold es. rewrite Q1. apply in_or_app. right. exact He. }
+  destruct (loop_gen l2 a f [] HLI Hhead Hall) as (G1 & G2 & G3).
+  destruct (apply_loop a l2 f []) as [[a' app] rc] eqn:Eloop. cbn [fst snd] in G1, G2, G3.
+  destruct rc; cbn [finish d_state d_ret].
+  - (* everything applied (or skipped): the final advance to the last wire number *)
+    destruct (G3 eq_refl) as [M1 M2].
+    assert (Hls : last_seq e0 rest + 1 < U64 /\ last_seq e0 rest <= beta a').
+    { unfold last_seq. split.
+      - apply Hb. destruct (exists_last_or_nil _ rest) as [->|(r' & z & ->)]; [left; reflexivity|].
+        rewrite last_last. right. apply in_or_app. right. left. reflexivity.
+      - destruct l2 as [|h t] eqn:El2.
+        + subst a'. rewrite app_nil_r in Q1. apply Q2. rewrite <- Q1. unfold es.
+          destruct (exists_last_or_nil _ rest) as [->|(r' & z & ->)]; [left; reflexivity|].
+          rewrite last_last. right. apply in_or_app. right. left. reflexivity.
+        + destruct M2 as [M2 M3]. unfold beta. destruct (a_gapp a'); [contradiction|].
+          rewrite M3.
+          assert (EL : last rest e0 = last t h).
+          { rewrite <- (last_cons_default _ rest e0 e0). fold es. rewrite Q1.
+            rewrite last_app_nonempty by discriminate. apply last_cons_default. }
+          rewrite EL. lia. }
+    destruct Hls as [Hls1 Hls2].
+    destruct (advance_LI a' (last_seq e0 rest) G1 Hls1 Hls2) as (A1 & A2 & _).
+    split; [exact A1|]. split; [lia|reflexivity].
+  - split; [exact G1|]. split; [exact G2|reflexivity].
+  - split; [exact G1|]. split; [exact G2|reflexivity].
+  - split; [exact G1|]. split; [exact G2|reflexivity].
+Qed.
+
+(* along any schedule of deliveries and connection resets (no restart) the cursor never
+   decreases and stays at or below the newest number of which an entry was applied *)
+Theorem cursor_run : forall start evs,
+  start + 2 < U64 ->
+  Forall (fun ev => match ev with
+                    | EDeliver es _ => forall e, In e es -> p_seq e + 1 < U64
+                    | EReset => True
+                    | ERestart => False
+                    end) evs ->
+  let a := r_ap (s_rep (run start evs)) in
+  LI a /\ start <= a_max a /\ a_max a <= beta a /\
+  forall pre ev post, evs = pre ++ ev :: post ->
+    a_max (r_ap (s_rep (run start pre))) <= a_max (r_ap (s_rep (run start (pre ++ [ev])))).
+Proof.
+  intros start evs Hst Hev.
+  assert (Gen : forall evs s, LI (r_ap (s_rep s)) ->
+    Forall (fun ev => match ev with
+                    | EDeliver es _ => forall e, In e es -> p_seq e + 1 < U64
+                    | EReset => True
+                    | ERestart => False
+                    end) evs ->
+    LI (r_ap (s_rep (fold_left step evs s))) /\
+    a_max (r_ap (s_rep s)) <= a_max (r_ap (s_rep (fold_left step evs s)))).
+  { clear evs Hev. induction evs as [|ev evs IH]; intros s HL HF; [split; [exact HL|cbn; lia]|].
+    inversion HF as [|? ? H1 H2]; subst. cbn [fold_left].
+    assert (Hs : LI (r_ap (s_rep (step s ev))) /\ a_max (r_ap (s_rep s)) <= a_max (r_ap (s_rep (step s ev)))).
+    { destruct ev as [es f| |]; [|split; [exact HL|cbn [step]; lia]|destruct H1].
+      destruct (step_deliver s es f) as [E1 _]. rewrite E1.
+      destruct (cursor_step (r_ap (s_rep s)) es f HL H1) as (C1 & C2 & _). split; assumption. }
+    destruct Hs as [Hs1 Hs2]. destruct (IH _ Hs1 H2) as [I1 I2]. split; [exact I1|lia]. }
+  intros a. subst a.
+  assert (H0 : LI (r_ap (s_rep (mkS (new_replica start) [])))) by (apply LI_init; exact Hst).
+  destruct (Gen evs _ H0 Hev) as [G1 G2]. fold (run start evs) in G1, G2.
+  split; [exact G1|]. split; [exact G2|]. split; [apply LI_beta; exact G1|].
+  intros pre ev post ->.
+  apply Forall_app in Hev. destruct Hev as [Hpre Hrest].
+  inversion Hrest as [|? ? Hev1 _]; subst.
+  destruct (Gen pre _ H0 Hpre) as [P1 _]. fold (run start pre) in P1.
+  unfold run at 2. rewrite fold_left_app. cbn [fold_left]. fold (run start pre).
+  destruct ev as [es f| |]; [|cbn [step]; lia|destruct Hev1].
+  destruct (step_deliver (run start pre) es f) as [E1 _]. rewrite E1.
+  apply (cursor_step _ es f P1 Hev1).
+Qed.
+
+Example cursor_run_sat :
+  let evs := [EDeliver (seg Lcut 0 1) None; EDeliver (seg Lcut 2 3) None;
+              EDeliver [mkP 3 [9; 9]; mkP 4 []] None; EDeliver (seg Lcut 0 3) (Some 0%nat)] in
+  cursors (mkS (new_replica 0) []) evs = [1; 2; 2; 2] /\
+  beta (r_ap (s_rep (run 0 evs))) = 2.
+Proof. split; vm_compute; reflexivity. Qed.
